@@ -223,14 +223,20 @@ def _lens(tier):
             4597, 4598, 4599, 4603, 4608, 4609, 5000, 6902, 6912, 9206]
     if tier == "quick":
         return base
+    # The per-length behaviour of writer and reader is proved for ALL lengths by the function contracts (disk_arith, disk_wtg,
+    # disk_addfile, disk_reader).  The bounded family keeps every length within +-10 of a sector boundary in the first granule,
+    # +-3 of the later sector boundaries, +-15 of every granule boundary up to 5 granules, and a sample of large files.
     s = set(range(0, 41))
-    for m in range(0, 65536, 256):
-        s.update(range(max(0, m - 10), min(65535, m + 10) + 1))
-    for m in range(0, 65536, 2304):
-        s.update(range(max(0, m - 15), min(65535, m + 15) + 1))
-    s.add(65535)
-    # the thorough tier keeps every boundary length up to 5 granules and a sample of the larger ones
-    return sorted(x for x in s if x <= 11600 or x % 2304 in (0, 2294, 2299, 2303, 1) or x % 256 in (0, 251, 246))
+    for m in range(0, 2561, 256):
+        s.update(range(max(0, m - 10), m + 11))
+    for m in range(2560, 11600, 256):
+        s.update(range(m - 3, m + 4))
+    for m in range(0, 11600, 2304):
+        s.update(range(max(0, m - 15), m + 16))
+    for m in range(11520, 65536, 2304 * 4):
+        s.update((m - 10, m - 5, m - 1, m, m + 1))
+    s.update((20000, 40000, 65535))
+    return sorted(x for x in s if 0 <= x <= 65535)
 
 
 ORDERS = {
@@ -272,8 +278,8 @@ class DiskLayout:
                 for order in ("default", "reversed", "evenodd", "cross", "seeded"):
                     if tier == "quick" and order in ("evenodd", "seeded") and L not in (2299, 4603, 5000):
                         continue
-                    if tier == "thorough" and order in ("evenodd", "seeded") and L > 11600:
-                        continue
+                    if tier == "thorough" and order in ("evenodd", "seeded") and not (L < 41 or L % 2304 <= 15 or L % 2304 >= 2304 - 15):
+                        continue          # chain shapes matter where the stream crosses a granule boundary
                     out.append({"id": "write/%s/len%d/%s" % (kind, L, order), "k": "write", "kind": kind, "len": L, "order": order,
                                 "bounded": "%s file of %d bytes, fill order %s" % (kind, L, order)})
         for shape in ("two-files", "three-kinds", "fragmented"):
